@@ -15,7 +15,10 @@
 (*             combine_terms tuple) over DISTINGUISHABLE stub values:      *)
 (*             per-point term 2^i (3 * 2^i when it comes from              *)
 (*             log_marginal), KL = 1000, prior k = 10^(k+4) spread over k  *)
-(*             parameter elements, added loss 7 * 10^6.  Rational          *)
+(*             parameter elements registered on the model, on the          *)
+(*             likelihood or split between them (the objective module      *)
+(*             reaches both, the ApproximateGP does not own the            *)
+(*             likelihood), added loss 7 * 10^6.  Rational                 *)
 (*             arithmetic, whole lattice.                                  *)
 (*             Repairs = {} is the code at HEAD: `num_data / beta` is a    *)
 (*             Python float division and raises for beta = 0.              *)
@@ -78,8 +81,14 @@ TraceOf(M) == RSum(DiagOf(M))
 
 \* ============================ part "assembly" ==================================================
 Betas == {<<1, 1>>, <<1, 2>>, <<0, 1>>}
+\* psite: the module the priors are registered on.  "model": all on the ApproximateGP (kernel / mean / its own parameters);
+\* "likelihood": all on the likelihood (e.g. GaussianLikelihood(noise_prior = ...)); "split": prior 1 on the model, prior 2 on the
+\* likelihood.  An ApproximateGP does NOT own its likelihood: only the objective module (children: likelihood, model) reaches both.
 Configs == {cf \in [obj : {"elbo", "pll", "gamma"}, B : 1..4, Nk : {"B", "2B", "10"}, beta : Betas, combine : BOOLEAN,
-                    np : 0..2, nl : 0..1, rank : {1, 2}] : cf.obj = "gamma" => cf.rank = 1}
+                    np : 0..2, psite : {"model", "likelihood", "split"}, nl : 0..1, rank : {1, 2}] :
+              /\ (cf.obj = "gamma" => cf.rank = 1)
+              /\ (cf.np = 0 => cf.psite = "model") /\ (cf.np = 1 => cf.psite # "split")}
+PriorSite(cf, k) == IF cf.psite = "split" THEN (IF k = 1 THEN "model" ELSE "likelihood") ELSE cf.psite
 NumData(cf) == CASE cf.Nk = "B" -> cf.B [] cf.Nk = "2B" -> 2 * cf.B [] OTHER -> 10
 
 \* stubs: the value returned for data point i by the likelihood method the objective is defined with
@@ -114,12 +123,16 @@ CodeKL(cf) ==
      ELSE [err |-> FALSE, v |-> RDiv(StubKL, RDiv(N, cf.beta))]               \* .div(self.num_data / self.beta)
 RECURSIVE AddedLoop(_, _)
 AddedLoop(acc, j) == IF j = 0 THEN acc ELSE RAdd(AddedLoop(acc, j - 1), StubAdded)                 \* added_loss.add_(term.loss())
+\* self.named_priors(): Module.named_priors walks the module tree of the OBJECTIVE: its children are likelihood, then model
+RECURSIVE PriorsOn(_, _, _)
+PriorsOn(cf, site, k) == IF k = 0 THEN <<>> ELSE PriorsOn(cf, site, k - 1) \o (IF PriorSite(cf, k) = site THEN <<k>> ELSE <<>>)
+NamedPriors(cf) == PriorsOn(cf, "likelihood", cf.np) \o PriorsOn(cf, "model", cf.np)
 RECURSIVE PriorLoop(_, _, _)
-PriorLoop(acc, k, N) == IF k = 0 THEN acc ELSE RAdd(PriorLoop(acc, k - 1, N), RDiv(RSum(PriorElems(k)), N))   \* .sum().div(self.num_data)
+PriorLoop(acc, ks, N) == IF ks = <<>> THEN acc ELSE PriorLoop(RAdd(acc, RDiv(RSum(PriorElems(Head(ks))), N)), Tail(ks), N)   \* .sum().div(self.num_data)
 CodeResult(cf) ==
   LET lik == CodeLik(cf)  kl == CodeKL(cf)
       added == AddedLoop(RZero, cf.nl)  had == cf.nl > 0
-      prior == PriorLoop(RZero, cf.np, R(NumData(cf)))
+      prior == PriorLoop(RZero, NamedPriors(cf), R(NumData(cf)))
   IN IF kl.err THEN [err |-> TRUE, res |-> <<>>]
      ELSE [err |-> FALSE,
            res |-> IF cf.combine THEN <<RSub(RAdd(RSub(lik, kl.v), prior), added)>>
@@ -274,16 +287,20 @@ HalfStepMoves  == [][Part = "ngd" /\ out.lab # "optimum" /\ hist' = Append(hist,
 
 \* ============================ part "lattice" ===================================================
 \* cells of the float64 replay on seeded SVGP models
+\* priors: the modules that carry registered priors (real GammaPrior / NormalPrior objects on noise, lengthscale, outputscale, mean
+\* constant); batch: batch shape of the whole model, () / (1,) / (2,): independent GPs, each with its own optimum
 BoundCells == [sec : {"bound"}, strat : {"whitened", "unwhitened"}, kern : {"rbf", "matern", "rbf_ard"}, mean : {"constant", "zero"},
-               qfam : {"init", "prior", "post", "wide", "shift", "random", "thin"}]
+               qfam : {"init", "prior", "post", "wide", "shift", "random", "thin"}, priors : {"none", "model", "likelihood", "both"}]
 NgdCells == [sec : {"ngd"}, strat : {"whitened", "unwhitened"}, kern : {"rbf", "matern", "rbf_ard"}, mean : {"constant", "zero"},
-             dist : {"natural", "tril"}, start : {"init", "random"}]
+             dist : {"natural", "tril"}, start : {"init", "random"}, batch : {0, 1, 2}]
+PriorSitesOf(cell) == CASE cell.priors = "none" -> {} [] cell.priors = "both" -> {"model", "likelihood"} [] OTHER -> {cell.priors}
 \* the inducing set IS the (mini)batch: UnwhitenedVariationalStrategy.forward then returns q(u) itself
 EqualCells == [sec : {"equal"}, strat : {"whitened", "unwhitened"}, kern : {"rbf", "matern"}, mean : {"constant", "zero"},
                qfam : {"prior", "post", "random"}]
 LatticeOut(cell) ==
   IF cell.sec \in {"bound", "equal"}
-  THEN [value |-> "definition", bound |-> "N*ELBO <= log marginal", collapsed |-> IF cell.qfam = "post" THEN "attained" ELSE "below"]
+  THEN [value |-> "definition", bound |-> "N*ELBO <= log marginal", collapsed |-> IF cell.qfam = "post" THEN "attained" ELSE "below",
+        priorsites |-> IF cell.sec = "bound" THEN PriorSitesOf(cell) ELSE {}]     \* every site's log densities enter with 1/N
   ELSE [value |-> "definition", bound |-> "N*ELBO <= log marginal",
         step1 |-> IF cell.dist = "natural" THEN "optimum" ELSE "vector-optimal, matrix first order",
         step2 |-> IF cell.dist = "natural" THEN "fixed point" ELSE "not stated"]
